@@ -61,29 +61,11 @@ theorem computeR_self (fuel : Nat) (X : Heap) (self : NTT_Goldilocks) (N : Int) 
     (h : NTT_computeR fuel X self N = some (X', self')) :
     self' = { self with r := ⟨X.size, 0⟩, r_ := ⟨X.size + 1, 0⟩, r_N := I32.toU64 N } := by
   unfold NTT_computeR at h
-  cases hl : NTT_log2 fuel (I32.toU64 N) with
-  | none => rw [hl] at h; cases h
-  | some l =>
-    rw [hl] at h
-    simp only [Option.bind_some] at h
-    cases hr : Loop.rangeM 1 N.toNat 1
-      (Heap.set (Heap.set (Heap.alloc (Heap.alloc X (I32.toU64 N).toNat).1 (I32.toU64 N).toNat).1
-        (Heap.alloc X (I32.toU64 N).toNat).2 0 Gen.Scalar.one__r)
-        (Heap.alloc (Heap.alloc X (I32.toU64 N).toNat).1 (I32.toU64 N).toNat).2 0
-        (Heap.get (Heap.set (Heap.alloc (Heap.alloc X (I32.toU64 N).toNat).1 (I32.toU64 N).toNat).1
-          (Heap.alloc X (I32.toU64 N).toNat).2 0 Gen.Scalar.one__r) self.powTwoInv (BitVec.setWidth 64 l).toNat))
-      (NTT_computeR_loop1
-        { self with r := (Heap.alloc X (I32.toU64 N).toNat).2,
-                    r_ := (Heap.alloc (Heap.alloc X (I32.toU64 N).toNat).1 (I32.toU64 N).toNat).2,
-                    r_N := I32.toU64 N } (BitVec.setWidth 64 l)) with
-    | none => rw [hr] at h; cases h
-    | some st =>
-      rw [hr] at h
-      simp only [Option.bind_some] at h
-      injection h with h
-      injection h with _ h
-      rw [← h]
-      simp only [Heap.alloc_snd, Heap.size_alloc]
+  -- whatever the loop and its body look like: the function returns the object state it has built before the loop
+  simp only [Option.bind_eq_some_iff, Option.some.injEq, Prod.mk.injEq] at h
+  obtain ⟨_, _, _, _, _, h⟩ := h
+  rw [← h]
+  simp only [Heap.alloc_snd, Heap.size_alloc]
 
 /-- an in-place call does not look at the destination buffer argument -/
 theorem ntt_same_irrel (o : Model.Ntt.Obj) (d1 d2 srcB : Model.Ntt.Buf) (size ncols nphase nblock : Nat) (inverse extend : Bool) :
@@ -255,7 +237,7 @@ theorem extendPol_gen_eq (fuel : Nat) (hf : 64 ≤ fuel) (hp : Heap) (self : NTT
   dsimp only
   rw [hdivE, hcE]
   simp only [Option.bind_some, hnull, if_true, hcnt, Heap.alloc_fst, Heap.alloc_snd]
-  rw [href]
+  refresh_rw href (X3, self') : self, bv (2 ^ dn)
   simp only [Option.bind_some, hs1]
   cases hr1 : intt o' (if decide (Out = In) = true then DstMode.same else DstMode.other) (hp.block Out) (hp.block In) (2 ^ dn) nc
       nphase.toNat nblock.toNat true with
